@@ -48,6 +48,10 @@ def templates():
                                               (("zv", L("y", n[0])),)))
     T["double_reduce_subs2"] = (3, lambda n: subs(reduce_("add", reduce_("add", binary("mul", L("x", n[0], n[1]), var("zv", ("real", ()))), ((n[0], 2),)), ((n[1], 2),)),
                                                (("zv", L("y", n[2])),)))
+    # a bound variable shared by THREE factors (the pairwise eager evaluation must not eliminate it inside one pair)
+    T["three_factors_shared"] = (3, lambda n: reduce_("add", binary("mul", binary("mul", L("x", n[0], n[1]), L("y", n[0], n[2])), L("z", n[0])), ((n[0], 2),)))
+    T["three_factors_shared_log"] = (3, lambda n: reduce_("logaddexp", binary("add", binary("add", L("x", n[0], n[1], carrier="log"), L("y", n[0], n[2], carrier="log")), L("z", n[0], carrier="log")), ((n[0], 2),)))
+    T["four_factors_shared"] = (3, lambda n: reduce_("add", binary("mul", binary("mul", binary("mul", L("x", n[0], n[1]), L("y", n[0], n[2])), L("z", n[0])), L("w", n[0], n[1])), ((n[0], 2), (n[1], 2))))
     T["logaddexp_nest"] = (3, lambda n: reduce_("logaddexp", binary("add", L("x", n[0], n[1], carrier="log"), reduce_("logaddexp", L("y", n[1], n[2], carrier="log"), ((n[1], 2),))), ((n[0], 2),)))
     return T
 
@@ -141,6 +145,8 @@ def binder_extra_worker(inst):
     """binders outside the Prog language, as obligations: Approximate (binds and re-exposes its approx_vars)"""
     from harness.oblig import decide
     _, kind, how, name = inst
+    if kind == "integrate":
+        return _integrate_worker(inst)
 
     def ob(mk):
         from collections import OrderedDict
@@ -173,6 +179,67 @@ def binder_extra_worker(inst):
     out = decide("binder|%s|%s|%s" % (kind, how, name), ob, timeout_ms=8000, twin=False)
     out["prog"] = out["label"]
     out["kind"] = out.get("kind") or "binder"
+    return out
+
+
+def _integrate_worker(inst):
+    """Integrate(log_measure, integrand, reduced_vars) over discrete variables: sum over the reduced variables of
+    exp(log_measure) * integrand; built lazily, then evaluated; binder names from the pool incl. a variable only the
+    measure mentions and a nested Integrate reusing a binder name"""
+    from harness.oblig import decide
+    _, kind, how, names = inst
+
+    def ob(mk):
+        from collections import OrderedDict
+        import itertools as it
+        import z3
+        import funsor
+        import funsor.ops as ops
+        from funsor import Bint, Tensor, Variable
+        from funsor.integrate import Integrate
+        from funsor.interpretations import lazy, reflect
+        from harness.core import result_cells
+        from lang import cellops as C
+        from symx.symarray import as_obj
+        i_, j_, k_ = names
+        M = mk.array("m", (2, 2), "real")
+        F = mk.array("f", (2, 2), "real")
+        H = mk.array("h", (2, 2), "real")
+        m = Tensor(M, OrderedDict([(i_, Bint[2]), (j_, Bint[2])]))
+        f = Tensor(F, OrderedDict([(j_, Bint[2]), (k_, Bint[2])]))
+        h = Tensor(H, OrderedDict([(i_, Bint[2]), (k_, Bint[2])]))
+        iv, jv = Variable(i_, Bint[2]), Variable(j_, Bint[2])
+        ctx = {"reflect": reflect, "lazy": lazy}.get(how)
+        def build():
+            a = Integrate(m, f, frozenset([iv, jv]))                         # i only in the measure
+            b = Integrate(m, Integrate(m, h, frozenset([iv])), frozenset([iv, jv]))    # nested, inner binder reuses i
+            return a, b
+        if ctx is None:
+            a, b = build()
+        else:
+            with ctx:
+                a, b = build()
+            a, b = funsor.reinterpret(a), funsor.reinterpret(b)
+        Mc, Fc, Hc = as_obj(M), as_obj(F), as_obj(H)
+        ex = C.UNARY["exp"]
+        pairs = [(z3.BoolVal(set(a.inputs) <= {k_} and set(b.inputs) <= {k_, j_}) if mk.symbolic else (set(a.inputs) <= {k_} and set(b.inputs) <= {k_, j_}), None)]
+        if not (set(a.inputs) <= {k_} and set(b.inputs) <= {k_, j_}):
+            return pairs
+        got, exp = [], []
+        for k in range(2):
+            got.append(result_cells(a, {k_: k})[()])
+            exp.append(C.fold("add", [ex(Mc[i, j]) * Fc[j, k] for i in range(2) for j in range(2)]))
+        pairs.append((got, exp))
+        got, exp = [], []
+        for k in range(2):
+            # inner(j, k) = sum_i exp(m[i,j]) h[i,k]  (free in j);  outer = sum_{i,j} exp(m[i,j]) inner(j, k)
+            inner = [C.fold("add", [ex(Mc[i, j]) * Hc[i, k] for i in range(2)]) for j in range(2)]
+            got.append(result_cells(b, {k_: k})[()])
+            exp.append(C.fold("add", [ex(Mc[i, j]) * inner[j] for i in range(2) for j in range(2)]))
+        pairs.append((got, exp))
+        return pairs
+    out = decide("binder|integrate|%s|%s" % (how, ",".join(names)), ob, timeout_ms=8000, twin=False)
+    out["prog"] = out["label"]
     return out
 
 
@@ -236,6 +303,8 @@ def main():
     insts = instances(chk.tier, chk.seed)
     chk.map("checks.c05", "worker", insts, chunksize=8)
     chk.map("checks.c05", "binder_extra_worker", [("binder", "approximate", how, nm) for how in ("reflect", "lazy") for nm in ("a", "x")], chunksize=1, family="approximate")
+    chk.map("checks.c05", "binder_extra_worker", [("binder", "integrate", how, nm) for how in ("eager", "reflect", "lazy") for nm in (("a", "b", "c"), ("c", "a", "b"), ("b", "c", "a"))],
+            chunksize=1, family="integrate")
     # the time binder of a lazily built MarkovProduct (not in the Prog language): obligation harness of C10
     from checks.c10 import instances as c10_instances
     mb = [i for i in c10_instances(chk.tier, chk.seed) if i[0] == "markov_binder"]
